@@ -58,9 +58,12 @@ ASSUMPTIONS = [
     "batch fits use well-conditioned data: synthetic curves of the selected model near the profile's "
     "initial parameters, contact point 0, >= 600 approach samples, fit interval covering contact and "
     "baseline; curves carry an innate tip position when the profile lacks compute_tip_position; the "
-    "recorded curve is added only when the profile computes and offsets the tip position; force noise is "
-    "limited to 0.3 % of the force range when smooth_height is selected (the step raises 'Reached max_iter' "
-    "on noisier soft-cantilever data, which is a limit of that step and not of the profile)",
+    "recorded curve is added only when the profile computes and offsets the tip position; the synthetic curves "
+    "are noise-free when smooth_height is selected (the step raises 'Reached max_iter' when the deflection "
+    "noise exceeds the height step, which is a limit of that step and not of the profile)",
+    "batch fits do not use the model 'sneddon_spher' (third-party package nanite_model_sneddon_spher, not in "
+    "/repo; its iterative solver did not return within 45 min for a fit with varying R and nu); the setup "
+    "scripts do select it",
     "E column is not compared for models without a parameter named E (two-layer model); only that "
     "the batch does not raise and the other columns are right",
     "batch fit == scripted fit with the same settings (docs: 'The fitting results are identical'), "
@@ -740,14 +743,15 @@ def check_batch(case, ctx):
     folder.mkdir()
     need_tip = "compute_tip_position" not in pre
     # smooth_height gives up (ValueError: Reached `max_iter`) on height data with > 1000 runs of equal
-    # median-filtered values, e.g. 2 % force noise on a 0.02 N/m cantilever: a limit of that step, not of the profile
+    # median-filtered values, i.e. when the deflection noise exceeds the height step (0.3 % force noise on a
+    # 0.02 N/m cantilever at 15 kPa): a limit of that step on such data, not of the profile -> noise-free curves
     smooth = "smooth_height" in pre
     expected_rows = []
     for fi, fspec in enumerate(case["files"]):
         sub = folder / fspec["dir"] if fspec["dir"] else folder
         sub.mkdir(exist_ok=True)
         cases = [curve_for(state, tab, dict(c, with_tip=c["with_tip"] or need_tip,
-                                            noise=min(c["noise"], 0.003) if smooth else c["noise"]))
+                                            noise=0.0 if smooth else c["noise"]))
                  for c in fspec["curves"]]
         fp = synth.write_h5(cases, sub / f"synth{fi}.h5")
         expected_rows += [(fp, e) for e in range(len(cases))]
@@ -863,6 +867,7 @@ def strategies(k=0):
     steps = sorted(D)
     models = sorted(tab)
     regs = list(rate.reg_names)
+    batch_models = [m for m in models if m != "sneddon_spher"]
     bounds = {}
     for key in models:
         for name, val, lo, hi, vary in tab[key]:
@@ -938,6 +943,8 @@ def strategies(k=0):
         def one(key):
             if key == "preprocessing" and (valid or friendly):
                 return valid_sel
+            if key == "model_key" and friendly:
+                return st.sampled_from(batch_models)
             if key == "rating training set" and friendly:
                 return st.just("zef18")
             if key == "range_x" and friendly:
@@ -1031,7 +1038,7 @@ def strategies(k=0):
                                         ["@emptydir", "zef18"], ["nope", "@emptydir", ""]])
         return st.fixed_dictionaries({
             "preprocessing": pre, "sep": st.sampled_from([",", ",", ", "]),
-            "model": st.one_of(st.sampled_from(rot(models)), st.none()) if friendly
+            "model": st.one_of(st.sampled_from(rot(batch_models)), st.none()) if friendly
             else st.one_of(st.none(), st.sampled_from(models)),
             "params": params, "range_type": rtype, "left": left, "right": right, "weight": weight,
             "training": training,
